@@ -12,7 +12,8 @@ def tref_json(t):
 def member_json(I, m, decl_ns, in_choice=False):
     form = m["form"] or I["namespaces"][decl_ns]["form"]
     return {"name": m["name"], "type": tref_json(m["type"]), "min": m["min"], "unbounded": m["max"] == "unbounded",
-            "nillable": bool(m["nillable"]), "qualified": form == "qualified", "inChoice": in_choice}
+            "nillable": bool(m["nillable"]), "qualified": form == "qualified" or m.get("ref_ns") is not None,
+            "inChoice": in_choice, "refNs": m.get("ref_ns")}
 
 
 def env_json(I):
